@@ -47,7 +47,7 @@ EXC = {"DataParseError": "ParseErr", "TypeError": "TypeErr", "ValueError": "Valu
 # --------------------------------------------------------------------------------------------
 # types
 # --------------------------------------------------------------------------------------------
-COQ_TY = {"str": "text", "int": "Z", "bool": "bool", "state": "Z", "states": "(list Z)", "strs": "(list text)",
+COQ_TY = {"block": "nat", "tdict": "tdict", "str": "text", "int": "Z", "bool": "bool", "state": "Z", "states": "(list Z)", "strs": "(list text)",
           "ints": "(list Z)", "stream": "text", "wmatrix": "(list wtaxon)", "wtaxon": "wtaxon", "tns": "tns",
           "cmat": "(cmat Z)", "taxon": "taxon", "taxset": "(list taxon)", "ref": "taxon", "alphabet": "alphabet",
           "lines": "(list text)", "wdict": "wdict", "wkey": "nat", "optint": "(option Z)", "descmatch": "(Z * Z)%type", "nslist": "(list unit)"}
@@ -128,7 +128,7 @@ class Compiler:
     # ---------------------------------------------------------------- analysis
     def can_raise(self, node):
         for n in ast.walk(node):
-            if isinstance(n, (ast.Raise, ast.Try)):
+            if isinstance(n, (ast.Raise, ast.Try, ast.While)):
                 return True
             if isinstance(n, ast.Call):
                 c = chain(n.func)
@@ -371,6 +371,9 @@ class Compiler:
             return "(py_str_state alpha %s)" % term
         if ty == "int":
             return "(py_int_str %s)" % term
+        if ty == "objid":
+            self.need_idstr = True
+            return "(idstr %s)" % term       # str(id(obj)): an input of the model
         bad(node, "str() of %s" % ty)
 
     def format_pieces(self, fmt, holes, args, env, pre, node):
@@ -446,7 +449,7 @@ class Compiler:
             return v, "states"
         if ty == "wmatrix" and kty == "wtaxon":
             return "(wm_getitem %s %s)" % (t, k), "states"
-        if ty == "wdict" and kty in ("wtaxon", "wkey"):
+        if ty == "wdict" and kty in ("wtaxon", "wkey", "block"):
             v = self.fresh("item")
             key = "(wt_key %s)" % k if kty == "wtaxon" else k
             pre.append(([v], "wdict_get %s %s" % (t, key), True))
@@ -482,6 +485,11 @@ class Compiler:
             if f.id == "str" and len(e.args) == 1:
                 t, ty = self.expr(e.args[0], env, pre, want="x")
                 return self.str_of(t, ty, e), "str"
+            if f.id == "id" and len(e.args) == 1:
+                t, ty = self.expr(e.args[0], env, pre, want="x")
+                if ty != "block":
+                    bad(e, "id of %s" % ty)
+                return t, "objid"          # an object is represented by its identity
             if f.id == "max" and len(e.args) == 1:
                 t, ty = self.expr(e.args[0], env, pre)
                 if ty != "ints":
@@ -512,6 +520,21 @@ class Compiler:
                         bad(e, "join of %s" % ty)
                     return "(py_join %s %s)" % (lit(f.value.value), t), "str"
             c = chain(f)
+            if c and c.startswith("self.") and c[5:] in self.done and not self.done[c[5:]].monadic \
+                    and not self.done[c[5:]].state and not e.args and not e.keywords:
+                # a translated method without effects, as an expression
+                callee = self.done[c[5:]]
+                ro = [self.expr(ast.parse(d, mode="eval").body, env, pre)[0] for d in callee.ro_attrs]
+                extra = [n for n, _ in callee.spec.extra_params]
+                return "(%s %s)" % (callee.spec.out_name, " ".join(extra + ro)), callee.spec.ret
+            if c == "nexusprocessing.escape_nexus_token" and len(e.args) == 1 \
+                    and [k_.arg for k_ in e.keywords] == ["preserve_spaces", "quote_underscores"]:
+                t, ty = self.expr(e.args[0], env, pre, want="x")
+                kt = [self.expr(k_.value, env, pre, want="x") for k_ in e.keywords]
+                if ty != "str" or [x[1] for x in kt] != ["bool", "bool"]:
+                    bad(e, "escape_nexus_token arguments")
+                self.need_esc = True
+                return "(esc %s %s %s)" % (kt[0][0], kt[1][0], t), "str"
             if c == "re.match" and len(e.args) == 2 and isinstance(e.args[0], ast.Constant) \
                     and e.args[0].value == r'\s*(\d+)\s+(\d+)\s*$':
                 t, ty = self.expr(e.args[1], env, pre, want="x")
@@ -584,6 +607,8 @@ class Compiler:
             return self.for_stmt(s, env, nxt)
         if isinstance(s, ast.Try):
             return self.try_stmt(s, env, nxt, loop_kont)
+        if isinstance(s, ast.While):
+            return self.while_stmt(s, env, nxt)
         bad(s, "statement")
 
     def raise_term(self, s):
@@ -606,7 +631,20 @@ class Compiler:
         elif isinstance(s.value, ast.Tuple):
             parts += [self.expr(x, env, [], want="x")[0] for x in s.value.elts]
         else:
-            parts.append(self.expr(s.value, env, [], want="x")[0])
+            pre = []
+            t, ty = self.expr(s.value, env, pre, want="x")
+            ret = self.spec.ret
+            if isinstance(ret, str) and ret.startswith("opt:"):
+                if ty == "none":
+                    t = "None"
+                elif ty == ret[4:]:
+                    t = "(Some %s)" % t
+                else:
+                    bad(s, "return of %s where %s is declared" % (ty, ret))
+            elif pre:
+                bad(s, "effect in a returned expression")
+            parts.append(t)
+            return self.emit_pre(pre, self.ok(tup(parts)))
         return self.ok(tup(parts) if parts else "tt")
 
     def expr_stmt(self, s, env, nxt):
@@ -720,6 +758,12 @@ class Compiler:
             if oty == "cmat" and isinstance(value, ast.Call) and chain(value.func) == c + ".new_sequence":
                 body = self.bind([ident(c)], "cm_set %s %s []" % (ot, kt), nxt(env), False)
                 return self.emit_pre(pre, body)
+            if oty == "tdict":
+                vt, vty = self.expr(value, env, pre, want="x")
+                if kty != "str" or vty != "block":
+                    bad(node, "title dict entry %s -> %s" % (kty, vty))
+                body = self.bind([ident(c)], "tdict_set %s %s %s" % (ot, kt, vt), nxt(env), False)
+                return self.emit_pre(pre, body)
             if oty == "wdict":
                 vt, vty = self.expr(value, env, pre, want="x")
                 if vty != "str":
@@ -816,6 +860,10 @@ class Compiler:
                 if inner or ty != "bool":
                     bad(test, "guarded condition")
                 return ("bool", "(match %s with Some %s => %s | None => false end)" % (ident(c), v, t))
+        if isinstance(test, ast.UnaryOp) and isinstance(test.op, ast.Not):
+            c = chain(test.operand)
+            if c and env.ty.get(c) == "opt:str" and c not in env.known:
+                return ("falsy", c, True)       # None or the empty string
         t, ty = self.expr(test, env, pre, want="bool")
         if ty == "str":
             t, ty = "(negb (py_is_empty %s))" % t, "bool"
@@ -850,6 +898,11 @@ class Compiler:
             if c[0] == "bool":
                 branch(s.body, env.copy(), rec)
                 branch(s.orelse, env.copy(), rec)
+            elif c[0] == "falsy":
+                e_some = env.copy()
+                e_some.known[c[1]] = "probe"
+                branch(s.body, env.copy(), rec)
+                branch(s.orelse, e_some, rec)
             else:
                 e_some = env.copy()
                 e_some.known[c[1]] = "probe"
@@ -877,6 +930,16 @@ class Compiler:
                 tb = branch(s.body, env.copy(), endk)
                 te = branch(s.orelse, env.copy(), endk)
                 term = "(if %s then\n%s\nelse\n%s)" % (c[1], tb, te)
+            elif c[0] == "falsy":
+                # `not x` for an optional string: x is None, or x is the empty string
+                v = self.fresh(ident(c[1]))
+                env_some = env.copy()
+                env_some.known[c[1]] = v
+                t_none = branch(s.body, env.copy(), endk)
+                t_empty = branch(s.body, env.copy(), endk)
+                t_some = branch(s.orelse, env_some, endk)
+                term = ("(match %s with\n| None =>\n%s\n| Some %s =>\nif py_is_empty %s then\n%s\nelse\n%s\nend)"
+                        % (ident(c[1]), t_none, v, v, t_empty, t_some))
             else:
                 v = self.fresh(ident(c[1]))
                 env_some = env.copy()
@@ -905,6 +968,8 @@ class Compiler:
             raise Unsupported("internal: fall-through of a terminal branch")
         kb = cont_rest if ft_body else dead
         ke = cont_rest if ft_else else dead
+        if c[0] == "falsy":
+            bad(s, "`not <optional string>` with a branch that does not fall through")
         if c[0] == "bool":
             tb = branch(s.body, env.copy(), kb)
             te = branch(s.orelse, env.copy(), ke) if (s.orelse or ft_else) else None
@@ -962,6 +1027,40 @@ class Compiler:
         for x in carried:
             env2.known.pop(x, None)
         return self.emit_pre(pre, self.bind(names, term, nxt(env2), self.monadic))
+
+    def while_stmt(self, s, env, nxt):
+        """while cond: body   (no break / continue / return inside) as a fuelled loop over the carried variables"""
+        if s.orelse:
+            bad(s, "while-else")
+        for n in ast.walk(s):
+            if isinstance(n, (ast.Break, ast.Continue, ast.Return)):
+                bad(n, "break / continue / return inside while")
+        carried = [x for x in self.assigned(s.body) if x in env.ty and env.ty[x] != "skip"]
+        if not carried:
+            bad(s, "loop without effect")
+        for x in carried:
+            if env.ty[x].startswith("opt:"):
+                bad(s, "optional variable carried through a while loop")
+        names = [ident(x) for x in carried]
+        env_b = env.copy()
+        env_b.known = {k: v for k, v in env.known.items() if k not in carried}
+        cpre = []
+        c = self.cond(s.test, env_b, cpre)
+        if c[0] != "bool" or cpre:
+            bad(s, "loop condition with an effect")
+        end = lambda env_e: self.ok(tup(names))
+        body = self.block(s.body, env_b, end)
+        cty = " * ".join(coq_ty(env.ty[x]) for x in carried)
+        if len(names) > 1:
+            opener = "fun (carried_ : %s) => let %s := carried_ in" % (cty, pat(names))
+        else:
+            opener = "fun (%s : %s) =>" % (names[0], cty)
+        self.need_fuel = True
+        term = "while_res fuel_ (%s\n%s) (%s\n%s) %s" % (opener, c[1], opener, body, tup(names))
+        env2 = env.copy()
+        for x in carried:
+            env2.known.pop(x, None)
+        return self.emit_pre([], self.bind(names, term, nxt(env2), True))
 
     def try_stmt(self, s, env, nxt, loop_kont):
         if len(s.body) != 1 or not isinstance(s.body[0], ast.Assign) or len(s.handlers) != 1 or s.finalbody:
@@ -1030,6 +1129,13 @@ class Compiler:
         for d, t in reversed(spec.init):
             term = "let %s := %s in\n%s" % (ident(d), t, term)
         params = list(spec.extra_params)
+        if getattr(self, "need_esc", False):
+            params.append(("esc", "bool -> bool -> text -> text"))     # nexusprocessing.escape_nexus_token (C02's layer)
+        if getattr(self, "need_idstr", False):
+            params.append(("idstr", "nat -> text"))                    # str(id(obj))
+        if getattr(self, "need_fuel", False):
+            params.append(("fuel_", "nat"))                            # bound on the iterations of `while`
+        self.auto_params = [n for n, _ in params[len(spec.extra_params):]]
         params += [(ident(d), coq_ty(spec.attrs[d])) for d in self.ro_attrs]
         params += [(ident(d), coq_ty(spec.state[d])) for d in self.state if d not in dict(spec.init)]
         params += [(p, coq_ty(t)) for p, t in spec.params if t != "skip"]
@@ -1088,6 +1194,7 @@ PRIMS = {
     ("str", "len"): "py_len_str", ("strs", "len"): "len", ("states", "len"): "len", ("wmatrix", "len"): "wm_len",
     ("tns", "len"): "tns_len", ("nslist", "len"): "len", ("taxset", "len"): "set_len", ("lines", "len"): "len",
     ("cmat", "contains"): "cm_contains", ("wmatrix", "contains"): "wm_contains",
+    ("wdict", "contains"): "wdict_contains", ("tdict", "contains"): "tdict_contains",
 }
 ATTRS = {("wtaxon", "label"): ("(wt_label %s)", "str"),
          ("wmatrix", "max_sequence_size"): ("(wm_max_sequence_size %s)", "int"),
@@ -1204,6 +1311,13 @@ PLAN = [
     Spec("nexuswriter.py", "NexusWriter", "_link_blocks", params=[],
          attrs={"self.suppress_block_titles": "opt:bool", "self.taxon_namespaces_to_write": "nslist"},
          state={}, locals_={}, ret="bool", out_name="NexusWriter_link_blocks"),
+    # a block (taxon namespace, matrix, tree list) is its identity; its label is a separate input
+    Spec("nexuswriter.py", "NexusWriter", "_get_block_title", params=[("block", "block")],
+         attrs={"self.suppress_block_titles": "opt:bool", "self.taxon_namespaces_to_write": "nslist",
+                "self.preserve_spaces": "bool", "self.unquoted_underscores": "bool", "block.label": "opt:str"},
+         state={"self._title_block_map": "tdict", "self._block_title_map": "wdict"},
+         locals_={"title": "str", "idx": "int", "original_title": "str", "raw_title": "str"},
+         ret="opt:str", out_name="NexusWriter_get_block_title"),
 ]
 
 
